@@ -20,6 +20,7 @@ import time
 import traceback
 
 ROOT = os.path.dirname(os.path.dirname(os.path.abspath(__file__)))
+OUT = os.environ.get('VERIF_OUT') or ROOT      # evidence/ and replays/ live here (mutant self-tests redirect)
 
 
 def digest(obj):
@@ -278,7 +279,7 @@ def report(mod, tier, seed, total, meta, log=print):
     """Re-execute violations, apply known findings, write evidence; -> exit code."""
     pid = mod.ID
     known = load_known()
-    rdir = os.path.join(ROOT, 'replays', pid)
+    rdir = os.path.join(OUT, 'replays', pid)
     new, knownhits = [], {}
     seen_fp = set()
     unstable = 0
@@ -370,8 +371,8 @@ def write_evidence(mod, tier, seed, total, meta, nviol, extra=None):
         'coverage': cov, 'assumptions': list(mod.ASSUMPTIONS),
         'wall_s': round(meta['wall'], 2), 'violations': int(nviol),
     }
-    os.makedirs(os.path.join(ROOT, 'evidence'), exist_ok=True)
-    tmp = os.path.join(ROOT, 'evidence', pid + '.json.tmp')
+    os.makedirs(os.path.join(OUT, 'evidence'), exist_ok=True)
+    tmp = os.path.join(OUT, 'evidence', pid + '.json.tmp')
     with open(tmp, 'w') as f:
         json.dump(ev, f, indent=1, default=_js, sort_keys=True)
-    os.replace(tmp, os.path.join(ROOT, 'evidence', pid + '.json'))
+    os.replace(tmp, os.path.join(OUT, 'evidence', pid + '.json'))
